@@ -5,7 +5,7 @@ def plan(tier, seed):
     q = tier == "quick"
     conds = []
     if q:
-        conds += t2_conds("c03", 3, timeout=280)
+        conds += t2_conds("c03", 3, timeout=280, split=3)
         conds += t1_conds("c03", "full", 2, 8, timeout=200)
         conds += t1_conds("c03", "reduced", 4, 6, timeout=240)
         bounds = {"T2": "every command, K=3 argument tokens", "T1": "full vocabulary N=2; reduced N=4"}
